@@ -130,13 +130,13 @@ PROPS["C11"] = dict(
             dict(harness="VerifHarness_C11_quick", reach=_c11_reach),
             dict(harness="VerifHarness_C11_count3", reach=_c11_reach),
             dict(harness="VerifHarness_C11_sym3", reach=_c11_reach),
-            dict(pkg="ariga.io/atlas/sql/sqlite", hdir="sqlite", harness="VerifHarness_C14_gate", reach=["dirty", "clean"]),
+            dict(pkg="ariga.io/atlas/sql/sqlite", hdir="sqlite", harness="VerifHarness_C14_gate", reach=["dirty", "clean", "refused"]),
         ],
         "thorough": [
             dict(harness="VerifHarness_C11_thorough", reach=_c11_reach),
             dict(harness="VerifHarness_C11_count4", reach=_c11_reach),
             dict(harness="VerifHarness_C11_sym4", reach=_c11_reach),
-            dict(pkg="ariga.io/atlas/sql/sqlite", hdir="sqlite", harness="VerifHarness_C14_gate", reach=["dirty", "clean"]),
+            dict(pkg="ariga.io/atlas/sql/sqlite", hdir="sqlite", harness="VerifHarness_C14_gate", reach=["dirty", "clean", "refused"]),
         ],
     },
     bounds={
@@ -169,6 +169,7 @@ PROPS["C06"] = dict(
         "quick": [
             dict(harness="VerifHarness_C06_quick", reach=["validates", "rejected"]),
             dict(harness="VerifHarness_C06_ignore", reach=["validates", "rejected"]),
+            dict(harness="VerifHarness_C06_lens2", reach=["validates", "rejected"]),
             dict(harness="VerifHarness_C06_shift", reach=["validates", "rejected"]),
             dict(harness="VerifHarness_C06_names3", reach=["validates"]),
             dict(harness="VerifHarness_C06_writers", reach=["validates", "rejected"]),
@@ -177,6 +178,7 @@ PROPS["C06"] = dict(
         "thorough": [
             dict(harness="VerifHarness_C06_thorough", reach=["validates", "rejected"]),
             dict(harness="VerifHarness_C06_ignore3", reach=["validates", "rejected"]),
+            dict(harness="VerifHarness_C06_lens2", reach=["validates", "rejected"]),
             dict(harness="VerifHarness_C06_shift", reach=["validates", "rejected"]),
             dict(harness="VerifHarness_C06_names4", reach=["validates"]),
             dict(harness="VerifHarness_C06_writers", reach=["validates", "rejected"]),
@@ -521,9 +523,12 @@ PROPS["C17"] = dict(
             dict(_st, harness="VerifHarness_C17_long", reach=["reversible"]),
             dict(_my, harness="VerifHarness_C17_mysql", reach=["reverse"]),
             dict(_my, harness="VerifHarness_C17_mysql_seq", reach=["reverse", "irreversible"]),
+            dict(_my, harness="VerifHarness_C17_mysql_multi", reach=["reverse"]),
             dict(_pg, harness="VerifHarness_C17_postgres", reach=["reverse"]),
             dict(_pg, harness="VerifHarness_C17_postgres_seq", reach=["reverse", "irreversible"]),
+            dict(_pg, harness="VerifHarness_C17_postgres_multi", reach=["reverse"]),
             dict(_lt, harness="VerifHarness_C17_sqlite", reach=["reverse", "irreversible"]),
+            dict(_lt, harness="VerifHarness_C17_sqlite_multi", reach=["reverse"]),
             dict(_my, harness="VerifHarness_C17_mysql_restore", reach=["reversible"]),
             dict(_pg, harness="VerifHarness_C17_postgres_restore", reach=["reversible"]),
             dict(_lt, harness="VerifHarness_C17_sqlite_restore", reach=["reversible"]),
@@ -534,9 +539,12 @@ PROPS["C17"] = dict(
             dict(_st, harness="VerifHarness_C17_long", reach=["reversible"]),
             dict(_my, harness="VerifHarness_C17_mysql", reach=["reverse"]),
             dict(_my, harness="VerifHarness_C17_mysql_seq", reach=["reverse", "irreversible"]),
+            dict(_my, harness="VerifHarness_C17_mysql_multi", reach=["reverse"]),
             dict(_pg, harness="VerifHarness_C17_postgres", reach=["reverse"]),
             dict(_pg, harness="VerifHarness_C17_postgres_seq", reach=["reverse", "irreversible"]),
+            dict(_pg, harness="VerifHarness_C17_postgres_multi", reach=["reverse"]),
             dict(_lt, harness="VerifHarness_C17_sqlite", reach=["reverse", "irreversible"]),
+            dict(_lt, harness="VerifHarness_C17_sqlite_multi", reach=["reverse"]),
             dict(_my, harness="VerifHarness_C17_mysql_restore", reach=["reversible"]),
             dict(_pg, harness="VerifHarness_C17_postgres_restore", reach=["reversible"]),
             dict(_lt, harness="VerifHarness_C17_sqlite_restore", reach=["reversible"]),
@@ -620,7 +628,7 @@ PROPS["C14"] = dict(
         "quick": [
             dict(harness="VerifHarness_C14_replay", reach=["dirty", "clean", "restored", "restore-failed", "replayed"]),
             dict(harness="VerifHarness_C14_normalize", reach=["dirty", "clean", "restored", "restore-failed", "normalized"]),
-            dict(harness="VerifHarness_C14_gate", reach=["dirty", "clean"]),
+            dict(harness="VerifHarness_C14_gate", reach=["dirty", "clean", "refused"]),
             dict(pkg="ariga.io/atlas/sql/mysql", hdir="mysql", harness="VerifHarness_C14_mysql_normalize", reach=["dirty", "clean", "normalized", "fault"]),
             dict(module="cmd/atlas", pkg="ariga.io/atlas/cmd/atlas/internal/migratelint", hdir="migratelint", harness="VerifHarness_C14_lint",
                  reach=["loaded", "failed", "checkpoint", "restored", "restore-failed"]),
@@ -628,7 +636,7 @@ PROPS["C14"] = dict(
         "thorough": [
             dict(harness="VerifHarness_C14_replay3", reach=["dirty", "clean", "restored", "restore-failed", "replayed"]),
             dict(harness="VerifHarness_C14_normalize", reach=["dirty", "clean", "restored", "restore-failed", "normalized"]),
-            dict(harness="VerifHarness_C14_gate", reach=["dirty", "clean"]),
+            dict(harness="VerifHarness_C14_gate", reach=["dirty", "clean", "refused"]),
             dict(pkg="ariga.io/atlas/sql/mysql", hdir="mysql", harness="VerifHarness_C14_mysql_normalize", reach=["dirty", "clean", "normalized", "fault"]),
             dict(module="cmd/atlas", pkg="ariga.io/atlas/cmd/atlas/internal/migratelint", hdir="migratelint", harness="VerifHarness_C14_lint3",
                  reach=["loaded", "failed", "checkpoint", "restored", "restore-failed"]),
@@ -727,6 +735,7 @@ PROPS["C13"] = dict(
             dict(_ca, harness="VerifHarness_C13_schema_apply", reach=["applied", "failed-none", "failed-tx"], validate=4),
             dict(_ca, harness="VerifHarness_C13_grow", reach=["grown-none", "grown-file"], validate=8, native_asserts=True),
             dict(_ca, harness="VerifHarness_C13_alldirective", reach=["rejected"], validate=4),
+            dict(_lt, **_sqlinit, module="", stubs=_rows_stubs, harness="VerifHarness_C13_sqlite_commit", reach=["commit", "rollback"]),
             dict(_ca, harness="VerifHarness_C13_dryrun_witness", role="witness", key="C13-dry-run-writes"),
         ],
         "thorough": [
@@ -735,6 +744,7 @@ PROPS["C13"] = dict(
             dict(_ca, harness="VerifHarness_C13_schema_apply3", reach=["applied", "failed-none", "failed-tx"], validate=6),
             dict(_ca, harness="VerifHarness_C13_grow", reach=["grown-none", "grown-file"], validate=8, native_asserts=True),
             dict(_ca, harness="VerifHarness_C13_alldirective", reach=["rejected"], validate=4),
+            dict(_lt, **_sqlinit, module="", stubs=_rows_stubs, harness="VerifHarness_C13_sqlite_commit", reach=["commit", "rollback"]),
             dict(_ca, harness="VerifHarness_C13_dryrun_witness", role="witness", key="C13-dry-run-writes"),
         ],
     },
@@ -853,18 +863,21 @@ NOT_APPLICABLE = {
 }
 # ---- families added in round five (bounds text) ----
 _r5 = {
-    "C02": "; expression-part group: an index of a column part and an optional expression part ((b + 1) / (b + 2)), each with a symbolic direction",
+    "C02": "; expression-part group: an index of a column part and an optional expression part ((b + 1) / (b + 2)), each with a symbolic direction; the named check of the fk+check group carries a symbolic dialect attribute (MySQL NOT ENFORCED, PostgreSQL NO INHERIT)",
     "C03": "; quoting family: two CHECK constraints whose expressions end in 3 and 2 symbolic bytes over {a, ', \\, (, ), blank}",
-    "C05": "; connected-planner family: the same template planned on a connection that answers every query with 0 or 1 rows",
-    "C07": "; PostgreSQL with 2 symbolic bytes in the default and in the comment text (Atlas format)",
+    "C05": "; connected-planner family: the same template planned on a connection that answers every query with 0 or 1 rows; the unchanged first column may be the AUTOINCREMENT primary key",
+    "C07": "; PostgreSQL with 2 symbolic bytes in the default and in the comment text (Atlas format); SQLite Atlas-format families: the default is raw text or a well-formed double-quoted literal",
     "C08": "; prefixes that close a comment directly with the delimiter",
     "C09": "; checkpoint family: any subset of up to 3 files are checkpoints",
-    "C12": "; sums family: 2 old / 0..2 new concrete statements chosen among 5 texts whose real SHA-256 digests begin with '7', 'h', '1', 'hl', '1S' (the engine evaluates the real digest of concrete pre-images)",
-    "C15": "; the expression part of the document-level index has a symbolic direction",
-    "C17": "; sequence family (MySQL, PostgreSQL): one ModifyTable with an ordered pair out of 9 sub-changes (add/drop column, unnamed/named check, drop check, add foreign key, modify column, add/drop index)",
-    "C18": "; window family: two new files (with or without a base file), the second drops a table created by the base or by the first",
+    "C12": "; sums family: 2 old / 0..2 new concrete statements chosen among 5 texts whose real SHA-256 digests begin with '7', 'h', '1', 'hl', '1S' (the engine evaluates the real digest of concrete pre-images); file hashes are the real directory checksum (token model), Revision.Hash included in the untouched-history assertion",
+    "C13": "; SQLite commit gate: CommitFunc over arbitrary foreign_key_check answers before and at commit (0..2 rows each; table letter in {a,b}, row id in 0..1 symbolic)",
+    "C14": "; the gate family uses fully symbolic 2-byte table names and also asks Driver.Snapshot",
+    "C15": "; the expression part of the document-level index has a symbolic direction; SQLite document families: symbolic nullability of the primary-key column",
+    "C17": "; sequence family (MySQL, PostgreSQL): one ModifyTable with an ordered pair out of 9 sub-changes (add/drop column, unnamed/named check, drop check, add foreign key, modify column, add/drop index); multi family (three dialects): two top-level changes in either order out of {add table, drop table t1, drop table t0, modify table}",
+    "C18": "; window family: two new files (with or without a base file), the second drops a table created by the base or by the first; rebuild families: first letter of each table name symbolic over {t, n, e, w, _}",
+    "C06": "; two files whose first has 0..3 fully symbolic bytes in either directory (lens2)",
     "C19": "; 3-byte globs over the class alphabet {a, b, [, ], -, ^} (ExcludeRealm last part and ExcludeSchema); thorough: 4 bytes",
-    "C20": "; names family (MySQL, PostgreSQL): 3 tables named by one symbolic byte each over {a, A, b, B, _}, pairwise distinct, 3 foreign-key shapes",
+    "C20": "; names family (MySQL, PostgreSQL): 3 tables named by one symbolic byte each over {a, A, b, B, _}, pairwise distinct, 3 foreign-key shapes; the re-planned modification also holds a ModifyColumn (type + comment) first or last (MySQL, PostgreSQL)",
 }
 for _p, _t in _r5.items():
     for _tier in ("quick", "thorough"):
